@@ -58,6 +58,12 @@ class Ctx:
     self.assumptions = []
     self.notes = []
     self.evaluations = 0
+    self.deferred = []
+
+  def defer(self, msg):
+    """An analysis gap met inside one rule family that should not hide the verdicts of the others: the run goes on; if it
+    ends without a new violation the gap is reported as an analysis error (exit 2), otherwise the violations are."""
+    self.deferred.append(msg)
 
   @property
   def thorough(self):
@@ -170,6 +176,9 @@ def run_property(prop, tier, seed, repo, write_evidence=True, quiet=False):
     say(f'  {f.loc} {f.function} [{f.rule}] {f.construct}: {f.message}')
     rc = 1
 
+  if rc == 0 and ctx.deferred:
+    say(f'ANALYSIS-ERROR property={prop} {ctx.deferred[0]}')
+    return 2, out
   selftest = None
   if tier == 'thorough' and rc == 0 and write_evidence:
     selftest = checker_selftest(prop, repo, say)
